@@ -1743,12 +1743,9 @@ where
             for arm in arms {
                 if let anf::ImmExpr::ImmTag { index, ty } = &arm.lhs {
                     let vty = variant_ty_by_index(goenv, ty, *index);
-                    cases.push((
-                        vty,
-                        goast::Block {
-                            stmts: build_branch(arm.body.clone()),
-                        },
-                    ));
+                    let stmts = build_branch(arm.body.clone());
+                    let stmts = select_known_variant(stmts, &scrutinee_name, &vty);
+                    cases.push((vty, goast::Block { stmts }));
                 } else {
                     panic!("expected ImmTag in enum match arm");
                 }
@@ -1778,12 +1775,9 @@ where
                 for arm in arms {
                     if let anf::ImmExpr::ImmTag { index, ty } = &arm.lhs {
                         let vty = variant_ty_by_index(goenv, ty, *index);
-                        cases.push((
-                            vty,
-                            goast::Block {
-                                stmts: build_branch(arm.body.clone()),
-                            },
-                        ));
+                        let stmts = build_branch(arm.body.clone());
+                        let stmts = select_known_variant(stmts, &scrutinee_name, &vty);
+                        cases.push((vty, goast::Block { stmts }));
                     } else {
                         panic!("expected ImmTag in enum match arm");
                     }
@@ -1805,6 +1799,79 @@ where
         },
         _ => panic!("unsupported scrutinee type for match in Go backend"),
     }
+}
+
+/// Inside `case V:` of `switch x := x.(type)` the variable `x` is rebound at the struct
+/// type `V`, so another type switch on `x` there (a `match` on the same variable inside
+/// one of its arms) would switch on a non-interface value. The variant is known: keep
+/// the body of the case for `V`, or of the default.
+fn select_known_variant(
+    stmts: Vec<goast::Stmt>,
+    scrutinee: &str,
+    variant: &goty::GoType,
+) -> Vec<goast::Stmt> {
+    let goty::GoType::TName { name: variant_name } = variant else {
+        return stmts;
+    };
+    let in_block = |block: goast::Block| goast::Block {
+        stmts: select_known_variant(block.stmts, scrutinee, variant),
+    };
+    let mut out = Vec::with_capacity(stmts.len());
+    for stmt in stmts {
+        match stmt {
+            goast::Stmt::SwitchType {
+                bind: Some(bind),
+                expr: goast::Expr::Var { name, .. },
+                cases,
+                default,
+            } if bind == scrutinee && name == scrutinee => {
+                let known = cases
+                    .into_iter()
+                    .find(|(ty, _)| matches!(ty, goty::GoType::TName { name } if name == variant_name))
+                    .map(|(_, block)| block)
+                    .or(default);
+                if let Some(block) = known {
+                    out.extend(in_block(block).stmts);
+                }
+            }
+            goast::Stmt::SwitchType {
+                bind,
+                expr,
+                cases,
+                default,
+            } => out.push(goast::Stmt::SwitchType {
+                bind,
+                expr,
+                cases: cases
+                    .into_iter()
+                    .map(|(ty, block)| (ty, in_block(block)))
+                    .collect(),
+                default: default.map(in_block),
+            }),
+            goast::Stmt::SwitchExpr {
+                expr,
+                cases,
+                default,
+            } => out.push(goast::Stmt::SwitchExpr {
+                expr,
+                cases: cases
+                    .into_iter()
+                    .map(|(value, block)| (value, in_block(block)))
+                    .collect(),
+                default: default.map(in_block),
+            }),
+            goast::Stmt::If { cond, then, else_ } => out.push(goast::Stmt::If {
+                cond,
+                then: in_block(then),
+                else_: else_.map(in_block),
+            }),
+            goast::Stmt::Loop { body } => out.push(goast::Stmt::Loop {
+                body: in_block(body),
+            }),
+            other => out.push(other),
+        }
+    }
+    out
 }
 
 fn compile_cexpr_effect(goenv: &GlobalGoEnv, expr: &anf::CExpr) -> Vec<goast::Stmt> {
